@@ -10,7 +10,7 @@ use winter_crypto::{
     hashers::{Blake3_192, Blake3_256, Sha3_256},
     Digest, ElementHasher, Hasher,
 };
-use winter_math::fields::f64::BaseElement as F64;
+use winter_math::fields::{f64::BaseElement as F64, CubeExtension, QuadExtension};
 use winter_utils::Deserializable;
 
 use crate::hashers::{u64_of, Jive, Rp62, Rp64};
@@ -30,7 +30,18 @@ fn call_bytes<H: ElementHasher<BaseField = F64>>(c: &Value) -> Result<Vec<u8>, S
         "hash" => H::hash(&bytes_of(&c["bytes"])),
         "hash_elements" => {
             let es: Vec<F64> = c["elems"].as_array().ok_or("no elems")?.iter().map(|v| F64::new(u64_of(v))).collect();
-            H::hash_elements(&es)
+            match c["deg"].as_u64().unwrap_or(1) {
+                1 => H::hash_elements(&es),
+                2 => {
+                    let q: Vec<QuadExtension<F64>> = es.chunks(2).map(|c| QuadExtension::new(c[0], c[1])).collect();
+                    H::hash_elements(&q)
+                },
+                3 => {
+                    let q: Vec<CubeExtension<F64>> = es.chunks(3).map(|c| CubeExtension::new(c[0], c[1], c[2])).collect();
+                    H::hash_elements(&q)
+                },
+                d => return Err(format!("unsupported degree {d}")),
+            }
         },
         "merge" => {
             if ds.len() != 2 {
@@ -80,7 +91,9 @@ pub fn main(args: &[String]) -> i32 {
     let mut seen: HashMap<(String, String, Vec<u8>), usize> = HashMap::new();
     let (mut equal, mut panics, mut hashed) = (0usize, 0usize, 0usize);
     for (i, c) in cases.iter().enumerate() {
-        let key = (c["h"].as_str().unwrap_or("").to_string(), c["op"].as_str().unwrap_or("").to_string());
+        // a family is (hasher, entry point, element degree)
+        let key = (c["h"].as_str().unwrap_or("").to_string(),
+                   format!("{}/{}", c["op"].as_str().unwrap_or(""), c["deg"].as_u64().unwrap_or(1)));
         match digest_of_case(c) {
             Err(e) => out.emit(&json!({"i": i, "tool_error": e})),
             Ok(Err(p)) => {
